@@ -417,6 +417,10 @@ def generate():
         fb = ('libc::recv(dedicated_rx.fd.get(),main_data_buffer[write_pos..].as_mut_ptr()as*mutc_void,end_pos-write_pos,0,)' in lflat
               and 'poll' not in lflat and 'blocking_mode' not in lflat and 'MSG_DONTWAIT' not in lflat and 'O_NONBLOCK' not in lflat and 'EAGAIN' not in lflat)
         out.append(f"def shape_followupsBlocking : Bool := {'true' if fb else 'false'}  -- a message once begun is assembled to the end (or found truncated)")
+        # a follow-up read interrupted by a signal (EINTR) is repeated: an interrupted call has transferred nothing
+        retry = ('cmp::Ordering::Less=>{leterror=UnixError::last();ifmatches!(error,UnixError::Errno(libc::EINTR)){continue;}returnErr(error);},' in
+                 re.sub(r'\s+', '', lbody))
+        out.append(f"def shape_followupRetriesEintr : Bool := {'true' if retry else 'false'}  -- false: `Less => return Err(UnixError::last())` whatever the errno")
         # truncated message handling: legacy returns ChannelClosed; repaired code receives the next message
         m = re.search(r'cmp::Ordering::Equal\s*=>\s*return\s+Err\(UnixError::ChannelClosed\)', recv)
         out.append(f"def recvTruncatedIsClosed : Bool := {'true' if m else 'false'}")
